@@ -354,19 +354,12 @@ def r3_canonical_descent(ctx, rule):
     if ok:
         ctx.ok(rule, qual, 'children only at positions >= left_index; recursive call passes the loop position', facts)
     # all base structures are walked on restore
-    iq = ctx.fn(PQ + '__init__')
-    found = False
-    iq_stores = stores_in(iq)
-    for n in walk_local(iq):
-        it_ = expand(iq, n.iter, iq_stores) if isinstance(n, ast.For) else None
-        if isinstance(n, ast.For) and isinstance(it_, ast.Call) and call_name(it_) == 'self.pcfg.initalize_base_structures':
-            for s in n.body:
-                if isinstance(s, (ast.Expr, ast.Assign)) and isinstance(s.value, ast.Call) \
-                        and call_name(s.value) in ('self.restore_base_item', 'self.pcfg.restore_prob_order') \
-                        and s.value.args and U(s.value.args[0]) == U(n.target):
-                    found = True
-            if found and any(isinstance(s, (ast.Break, ast.Continue, ast.Return, ast.If)) for s in walk_stmts(n.body)):
-                found = False
+    from .common import queue_init_modes
+    modes = queue_init_modes(ctx, PQ + '__init__')
+    found = any(x in ('self.restore_base_item', 'self.pcfg.restore_prob_order') for x in modes['restore'])
+    if not found and modes['unknown']:
+        ctx.unk(rule, PQ + '__init__', 'the restore walk depends on conditions that are not understood: %s' % modes['unknown'][:3])
+        return
     if found:
         ctx.ok(rule, PQ + '__init__', 'restore walks every base structure')
     else:
